@@ -200,6 +200,17 @@ def sender_case(ctx, seed, idx):
     n = r.choice([1, 2, 4])
     sent = []
     for i in range(n):
+        if r.random() < 0.25:
+            # a call that cannot be sent (its last argument does not conform) although its first arguments are descriptors:
+            # nothing of it may reach the transport, in particular no descriptor that would then precede the NEXT message
+            orphan = [Tok(90 + i, 0), Tok(90 + i, 1)]
+            try:
+                d = conn.callRemote('/a', 'Bad%d' % i, interface='a.b', destination='a.b', signature='hhi',
+                                    body=[orphan[0], orphan[1], 'not-an-int'])
+                d.addErrback(lambda f: None)
+            except Exception:
+                pass
+            ctx.count('unsendable_descriptor_calls')
         sig, build, nfd = r.choice(SHAPES)
         toks = [Tok(i, k) for k in range(nfd)]
         if nfd > 1 and r.random() < 0.35:
